@@ -178,6 +178,32 @@ fn hostile_program(rng: &mut Prng) -> (Module, &'static str) {
         // loops that never end by themselves, through every route the interpreter can be re-entered by
         return crate::e_budget::nonterminating(rng);
     }
+    if rng.chance(1, 12) {
+        // every arithmetic / comparison card on the extreme operands
+        let vals = |rng: &mut Prng| -> Card {
+            match rng.below(12) {
+                0 => int(i64::MIN),
+                1 => int(i64::MAX),
+                2 => int(-1),
+                3 => int(0),
+                4 => int(1),
+                5 => int(i64::MIN + 1),
+                6 => real(f64::INFINITY),
+                7 => real(-0.0),
+                8 => bin("div", real(0.0), real(0.0)),
+                9 => nil(),
+                10 => strc("abc"),
+                _ => real(1e308),
+            }
+        };
+        let mut cards = vec![set("_", nil())];
+        for _ in 0..rng.range(4, 30) {
+            let op = *rng.pick(&["add", "sub", "mul", "div", "less", "le", "eq", "ne", "and", "or", "xor"]);
+            let (a, b) = (vals(rng), vals(rng));
+            cards.push(set("_", bin(op, a, b)));
+        }
+        return (with_main(Module::default(), cards), "arithmetic-extremes");
+    }
     if rng.chance(1, 10) {
         // the library's ordering functions over values that are not totally ordered (nil, strings, tables, numbers,
         // NaN, a table that contains itself), in tables large enough for every sorting strategy
